@@ -9,6 +9,7 @@ Resolver          printed path -> the places of the real document it designates 
 run_main          the whole tool in-process on a file (CLI sample)
 """
 import contextlib
+import re
 import io
 import os
 import sys
@@ -123,6 +124,8 @@ def parse_expr(expr):
             term = rest[len(op):]
             if op == "=~" and len(term) >= 2 and term[0] == term[-1]:
                 term = term[1:-1]
+            elif op != "=~":
+                term = re.sub(r"\\(.)", r"\1", term)      # a backslash escape spells the character after it
             return inv, op, term
     raise ValueError(expr)
 
